@@ -4,6 +4,8 @@ import json, os
 HERE = os.path.dirname(os.path.abspath(__file__))
 T = "explicit TLA+ specification checked with TLC (exhaustive design model) + TLC-generated behaviours replayed on the real code + NDJSON traces of the real code validated by TLC against the trace specification"
 checks = {
+ "C01": dict(text="TxPath.tla (code-shaped model of QueuePackage/SendRemainingPackets/sendPackets on the packet queue) is checked exhaustively by TLC for body sizes 2..4, all call splits, successive messages and size changes (the pinned algorithm is kept as a negative config that TLC refutes); all behaviours of the small scope are replayed on the real Channel, and traces of the real Channel at every boundary length k*(ps-8)+d (quick: ~60 packet sizes; thorough: every size 256..65535) are validated by TLC against the contract Trace_TxPath.tla.",
+             note="Trusted: harness wire parser and content comparison (field clean), TLC. Channel 0 only here (channels>0: C12). Messages in which a call failed are not judged.", ref="§7 C01"),
  "C15": dict(text="PacketQueue.tla (code-shaped queue vs flat FIFO) is checked exhaustively by TLC for all operation sequences of a bounded scope; every behaviour of the small scope and simulated longer ones are replayed on the real tds.PacketQueue and the recorded traces, plus random sequences at packet sizes 9..600, are validated by TLC against Trace_PacketQueue.tla.",
              note="Trusted: the transcription of the trace events (harness pq driver), TLC, the guarded hook VerifPacketDataLens. Domain restrictions listed in DESIGN.md C15 (writes at the end position, no reads into make() padding).", ref="§7 C15"),
 }
